@@ -167,9 +167,11 @@ extern _Bool ts_oom_preallocated;  /* the connection holds a preallocated NoMemo
  * bus_dispatch_matches(t, sender, addressed, m, error) REQUIRES: m observable and already captured, error clear,
  *    sender NULL (driver) or active.  ENSURES: TRUE => addressed (if any) was staged exactly once, it accepts fds if
  *    m has any; FALSE => error set, and unless it is NoMemory nothing was staged for addressed (no delivery after denial).
- *    REQUIRES also that m has a non-zero serial: a refusal for one recipient is reported to the monitors as an error reply
- *    to m (C18: monitors see "messages the bus refuses to deliver"), and API dbus_message_new_error needs that serial. */
-/* stated (and named) separately from the rest of the two preconditions below */
+ *    A refusal for one recipient is reported to the monitors as an error reply to m (C18: monitors see "messages the bus
+ *    refuses to deliver"), and API dbus_message_new_error needs m to have a non-zero serial.  Messages built by the bus
+ *    itself arrive here with serial 0; send_one_message must therefore establish the serial itself before it reports a
+ *    refusal (obligation: precondition of bus_transaction_capture_error_reply inside unit C15.send_one).  Before the
+ *    fix 281c87a this was impossible and the daemon aborted (known-findings.json, fixed). */
 #define PRE_routed_has_serial(m) (TS_MSG(m)->serial != 0)
 #define PRE_send_one_message(c, ctx, sender, addressed, m, t, error) \
   ((c) != NULL && (ctx) != NULL && (m) != NULL && (t) != NULL && (error) != NULL && (error)->name == NULL && TS_OBSERVABLE(m, sender))
